@@ -11,6 +11,7 @@ import copy
 import hashlib
 import json
 import math
+import sys
 import traceback
 import types
 from fractions import Fraction
@@ -440,7 +441,11 @@ def run(tape):
     import scenic.core.regions as R
     N, Nslow = NDRAW[TIER]
     stats, violations, extra = {}, [], {}
-    op = [None, "intersect", "union", "difference"][tape.weighted([4, 3, 3, 3], "op")]
+    w = tape.draw(17, "op")  # 0-3 primitive, 4-6 intersect, 7-9 union, 10-12 difference, 13-16 lazy regions across scenes
+    if w >= 13:
+        from . import c03lazy
+        return c03lazy.run_lazy(tape, sys.modules[__name__])
+    op = [None, "intersect", "union", "difference"][(w - 1) // 3 if w > 3 else 0]
     more = ["pointset"] * 3 if op == "intersect" else []  # the point-set intersection sampler is a mechanism of its own
     kinds = [tape.choice([k for k in KINDS if k != "grid" or op != "union"] + more, "kindA")]
     A, B = make_leaf(tape, kinds[0], None, "A."), None
